@@ -23,7 +23,9 @@ LEVEL = {'text': 'Machine-checked theorems over unbounded inputs (Props/C09.v, n
                  'designated table whatever follows it, for a table given by the section link and for one found through DT_STRTAB and '
                  'PT_LOAD (C09_string_in_table, C09_strings_resolved, C09_iter_tags_linked, C09_iter_tags_pointed); the pointer->offset '
                  'mapping equals the PT_LOAD rule and is unambiguous (C09_address_offset, C09_get_table_offset); the SysV and the GNU '
-                 'hash symbol counts equal the true count for every valid table (C09_count_from_sysv_hash, C09_count_from_gnu_hash). '
+                 'hash symbol counts equal the true count for every valid table (C09_count_from_sysv_hash, C09_count_from_gnu_hash); the SysV '
+                 'entry width the code chooses for EVERY e_machine x class is the psABIs\': 64-bit for ELF64 EM_ALPHA/EM_S390, 32-bit '
+                 'elsewhere (C09_hash_width, over Gen/C09Hash.v regenerated from the live ELFStructs; /repo fix 40b6387). '
                  'views_agree: for EVERY image satisfying the boolean predicate consistent_b (every dynamic pointer lies in a PT_LOAD '
                  'whose file image contains the table; the section headers describe the same bytes; .dynamic at the segment offset or '
                  'a copy elsewhere) and EVERY stripped form of it (stripped_of_b), the DynamicSection of the original, the '
@@ -55,7 +57,7 @@ LEVEL = {'text': 'Machine-checked theorems over unbounded inputs (Props/C09.v, n
                  'get_symbol_by_name and get_tag(n) are pinned by correspondence only (see text).'}
 RULE = ('cases: synthesized dynamic images (both classes/byte orders; common, MIPS, AArch64, Solaris and unknown machine/OS '
         'tag sets; duplicate tags; entries and garbage after the terminator; 1-3 PT_LOAD groups with distinct address deltas, '
-        'decoy and duplicate segments, shuffled program headers; GNU / SysV / both / no hash table; REL/RELA/RELR/JMPREL '
+        'decoy and duplicate segments, shuffled program headers; GNU / SysV / both / no hash table (SysV entries 64-bit wide on ELF64 EM_S390 / EM_ALPHA, which are drawn in both classes); REL/RELA/RELR/JMPREL '
         'tables) observed through three views each: DynamicSection of the image, DynamicSegment of the image, DynamicSegment '
         'of the image with e_shoff=e_shnum=e_shstrndx=0; a quarter of the images carry a copy of the array in a .dynamic section at an offset different from the segment\'s, '
         'another quarter ("foreign") carry there ANOTHER array linked to ANOTHER string table with other strings at the same '
@@ -77,7 +79,7 @@ DT = dict(NULL=0, NEEDED=1, PLTRELSZ=2, PLTGOT=3, HASH=4, STRTAB=5, SYMTAB=6, RE
           DEBUG=21, TEXTREL=22, JMPREL=23, BIND_NOW=24, RUNPATH=29, FLAGS=30, RELRSZ=35, RELR=36, RELRENT=37,
           GNU_HASH=0x6ffffef5, SUNW_FILTER=0x6000000f, FLAGS_1=0x6ffffffb, VERSYM=0x6ffffff0)
 SHT = dict(NULL=0, PROGBITS=1, STRTAB=3, RELA=4, HASH=5, DYNAMIC=6, REL=9, DYNSYM=11, RELR=19, GNU_HASH=0x6ffffff6)
-MACHINES = [62, 62, 3, 8, 8, 10, 183, 183, 40, 2, 21, 243, 0x7777]
+MACHINES = [62, 62, 3, 8, 8, 10, 183, 183, 40, 2, 21, 243, 0x7777, 22, 22, 41, 41]   # 22 = EM_S390, 41 = EM_ALPHA
 OSABIS = [0, 0, 3, 6, 6, 9, 97, 0x77]
 STRINGS = [b'libc.so.6', b'libm.so.6', b'libfoo.so.1', b'/opt/lib:$ORIGIN/../lib', b'x', b'caf\xc3\xa9.so',
            b'\xe4\xb8\xad\xe6\x96\x87.so', b'lib\xf0\x9f\x98\x80.so', b'a' * 70, b'printf', b'malloc', b'_init', b'fooAz', b'fooBY',
@@ -445,7 +447,9 @@ def _plan(a):
         so_, shift_, nbloom_, nb_ = A['gnu']
         sizes['gnu'] = 16 + nbloom_ * w + nb_ * 4 + (len(names_) - so_) * 4
     if A['sysv'] is not None:
-        sizes['sysv'] = 8 + 4 * (A['sysv'][0] + len(names_))
+        # 64-bit entries in the 64-bit Alpha and s390x ABIs, 32-bit words everywhere else
+        P.hash_wide = is64 and A['machine'] in (22, 41)
+        sizes['sysv'] = (8 if P.hash_wide else 4) * (2 + A['sysv'][0] + len(names_))
     relsz = {}
     for r in A['rels']:
         k = r[0]
@@ -610,7 +614,7 @@ def _plan(a):
         elif nm == '.gnu.hash':
             rows.append([nameoff[nm], SHT['GNU_HASH'], off['gnu'], sizes['gnu'], lk('.dynsym'), 0, addr['gnu']])
         elif nm == '.hash':
-            rows.append([nameoff[nm], SHT['HASH'], off['sysv'], sizes['sysv'], lk('.dynsym'), 4, addr['sysv']])
+            rows.append([nameoff[nm], SHT['HASH'], off['sysv'], sizes['sysv'], lk('.dynsym'), 8 if P.hash_wide else 4, addr['sysv']])
         elif nm == '.rel.dyn':
             rows.append([nameoff[nm], SHT['REL'], off['REL'], sizes['REL'], lk('.dynsym'), relsz['REL'], addr['REL']])
         elif nm == '.rela.dyn':
@@ -694,7 +698,7 @@ def _plan(a):
             ch[i] = bk[h]
             bk[h] = i
         nch = len(ch) + (1 if mut == 'nchain_off' else 0)
-        rec(('sysv', 0), 'Hash', [nb, nch, bk, ch + ([0] if mut == 'nchain_off' else [])])
+        rec(('sysv', 0), 'Hash64' if P.hash_wide else 'Hash', [nb, nch, bk, ch + ([0] if mut == 'nchain_off' else [])])
     for r in A['rels']:
         k = r[0]
         rela = (k == 'RELA') or (k == 'JMPREL' and r[2])
